@@ -18,6 +18,9 @@ VERIF = os.path.dirname(os.path.dirname(os.path.abspath(__file__)))
 REPO = os.environ.get("VERIF_REPO", "/repo")
 SCRATCH = os.environ.get("VERIF_SCRATCH", "/var/tmp/ohkami-verif")
 KANI_SRC = os.path.join(VERIF, "kani")
+# seeded-change runs (lib/seedtest.py) must not overwrite the evidence / replays of the unchanged tree
+EVID_DIR = os.environ.get("VERIF_EVIDENCE_DIR", os.path.join(VERIF, "evidence"))
+REPLAY_DIR = os.environ.get("VERIF_REPLAY_DIR", os.path.join(VERIF, "replays"))
 GUARD = "--cfg ohkami_verif"
 
 ENV = dict(os.environ)
@@ -60,9 +63,9 @@ UNWIND_RE = re.compile(r"#\[kani::unwind\((\d+)\)\]")
 STUB_RE = re.compile(r"#\[kani::stub\(([^,]+),")
 
 
-def discover():
+def discover(src=None):
     out = []
-    src = os.path.join(KANI_SRC, "src")
+    src = src or os.path.join(KANI_SRC, "src")
     for fn in sorted(os.listdir(src)):
         if not fn.endswith(".rs") or fn in ("lib.rs",):
             continue
@@ -286,10 +289,10 @@ def replay_native(h, code, tag, profiles=("dev",)):
     """Append the concrete-playback test to a scratch copy of the harness crate and run it
     natively (real code, stubs NOT applied). Returns dict(profile -> 'fails'|'passes'|'error')."""
     d = os.path.join(SCRATCH, f"replay-src-{tag}")
-    subprocess.run(["rsync", "-a", "--delete", "--exclude", "target", "--exclude", "Cargo.lock",
-                    KANI_SRC + "/", d + "/"], check=True)
-    shutil.copy(os.path.join(REPO, "Cargo.lock"), os.path.join(d, "Cargo.lock"))
-    retarget(d)
+    wd = os.path.join(SCRATCH, "kani-src")
+    if not os.path.isdir(wd):
+        wd = kani_workdir()
+    subprocess.run(["rsync", "-a", "--delete", "--exclude", "target", wd + "/", d + "/"], check=True)
     src = os.path.join(d, "src", h.src_file)
     with open(src, "a") as f:
         f.write("\n" + code + "\n")
@@ -344,12 +347,12 @@ def load_findings():
 # evidence
 # ----------------------------------------------------------------------------------------
 def write_evidence(prop, tier, seed, level, coverage, assumptions, wall, violations, extra=None):
-    os.makedirs(os.path.join(VERIF, "evidence"), exist_ok=True)
+    os.makedirs(EVID_DIR, exist_ok=True)
     ev = {"property_id": prop, "tier": tier, "seed": seed, "level": level, "coverage": coverage,
           "assumptions": assumptions, "wall_s": round(wall, 1), "violations": violations}
     if extra:
         ev.update(extra)
-    with open(os.path.join(VERIF, "evidence", prop + ".json"), "w") as f:
+    with open(os.path.join(EVID_DIR, prop + ".json"), "w") as f:
         json.dump(ev, f, indent=1)
 
 
@@ -366,7 +369,23 @@ def prop_info(prop):
 def check_kani(prop, tier, seed, only=None, jobs=None, extra_results=None):
     """returns (exit_code, summary dict)"""
     t0 = time.time()
-    allh = [h for h in discover() if h.prop == prop]
+    workdir = kani_workdir()
+    gen_info = None
+    if prop == "C01" and not os.environ.get("VERIF_C01_NO_CONSTRUCT"):
+        # construction stage: the real registration code builds the catalogue applications natively, the trees it
+        # yields become Kani harnesses (lib/c01_construct.py)
+        import c01_construct
+        try:
+            gen_info = c01_construct.generate(workdir, REPO, SCRATCH, ENV, tier, seed, log=log)
+        except Exception as e:
+            log(str(e)[-3000:])
+            log(f"INCONCLUSIVE property={prop} reason=construction-stage-failed (native tree dump did not build or run)")
+            write_evidence(prop, tier, seed, "model_checking",
+                           {"evaluations": 1, "distinct_nontrivial": 0, "rule": "construction stage failed", "samples": ["construction stage failed"],
+                            "explanation": "native/c01dump did not build or run against the current tree"},
+                           [], time.time() - t0, 0, {"inconclusive": ["construction stage failed"]})
+            return 2, {}
+    allh = [h for h in discover(os.path.join(workdir, "src")) if h.prop == prop]
     # tier=off: harnesses kept in the source for the record (they did not reach a verdict under any cap tried; DESIGN.md)
     hs = [h for h in allh if h.tier == "quick" or (tier == "thorough" and h.tier == "thorough")]
     if only:
@@ -377,7 +396,6 @@ def check_kani(prop, tier, seed, only=None, jobs=None, extra_results=None):
     random.Random(seed).shuffle(hs)
     # long harnesses first for better packing
     hs.sort(key=lambda h: -(h.timeout or 0))
-    workdir = kani_workdir()
     logdir = os.path.join(SCRATCH, "logs", prop)
     shutil.rmtree(logdir, ignore_errors=True)
     os.makedirs(logdir, exist_ok=True)
@@ -410,7 +428,7 @@ def check_kani(prop, tier, seed, only=None, jobs=None, extra_results=None):
     findings = load_findings()
     fmap = {f["id"]: f for f in findings.get("findings", []) if f.get("property") == prop}
     violations, inconclusive, known_printed, stale = [], [], [], []
-    os.makedirs(os.path.join(VERIF, "replays", prop), exist_ok=True)
+    os.makedirs(os.path.join(REPLAY_DIR, prop), exist_ok=True)
     for h in hs:
         r = results[h.name]
         if r.error:
@@ -464,7 +482,7 @@ def check_kani(prop, tier, seed, only=None, jobs=None, extra_results=None):
         pb = [p for p in r.playback if p["kind"] != "cover" and any(d.strip('"') in p["desc"] or p["desc"].strip('"') in d for d in descs)]
         if not pb:
             pb = [p for p in r.playback if p["kind"] != "cover"]
-        rp = os.path.join(VERIF, "replays", prop, h.name + ".rs")
+        rp = os.path.join(REPLAY_DIR, prop, h.name + ".rs")
         reproduced, rep_info = None, {}
         if h.replay == "native" and pb:
             for k, p in enumerate(pb[:3]):
@@ -535,6 +553,8 @@ def check_kani(prop, tier, seed, only=None, jobs=None, extra_results=None):
         "inconclusive": inconclusive,
         "exhaustive": False,
     }
+    if gen_info:
+        coverage["construction_stage"] = gen_info
     if extra_results:
         coverage.update(extra_results)
     write_evidence(prop, tier, seed, "model_checking", coverage, info.get("assumptions", []), time.time() - t0,
